@@ -656,7 +656,70 @@ func minLenAt(p *core.Prog, f *core.Func, g *core.Graph, n *core.GNode, e ast.Ex
 // sizeBounded: the allocation size expression is bounded above by a dominating comparison (and is of an
 // unsigned type or compared from below), or is derived from len()/cap() of existing data.
 func sizeBounded(p *core.Prog, f *core.Func, g *core.Graph, n *core.GNode, a ast.Expr) (bool, string) {
+	return sizeBoundedDepth(p, f, g, n, a, 0)
+}
+
+func sizeBoundedDepth(p *core.Prog, f *core.Func, g *core.Graph, n *core.GNode, a ast.Expr, depth int) (bool, string) {
 	info := f.Pkg.TypesInfo
+	// sums and products whose operands are each bounded on their own: constants, values of 8/16-bit types, lengths of
+	// existing buffers, min(K, x) with a constant K, and locals assigned once from such expressions
+	if boundedArith(p, f, a, 0) {
+		return true, "every operand of the size is bounded by a constant, by its 8/16-bit type or by min(constant, _)"
+	}
+	// a local that is a (converted) copy of a value of a small unsigned type: stride := int64(b.Stride)
+	if id, isId := core.Unparen(a).(*ast.Ident); isId && depth < 3 {
+		if v, isVar := info.Uses[id].(*types.Var); isVar && !v.IsField() && !isParamOf(f.Root(), v) {
+			if d := singleDef(f.Root(), v); d != nil {
+				src := stripConvs(info, d)
+				if bt, ok := info.TypeOf(src).Underlying().(*types.Basic); ok && (bt.Kind() == types.Uint8 || bt.Kind() == types.Uint16) {
+					return true, "size is a copy of an 8/16-bit value: bounded by its type"
+				}
+			}
+		}
+	}
+	// the size is a parameter of an unexported function that is never reassigned: it is what the callers pass - a constant,
+	// or an expression bounded at the call site
+	if po, isVar := core.ObjOf(info, core.Unparen(a)).(*types.Var); isVar && depth < 2 && f.Lit == nil && f.Obj != nil && !f.Obj.Exported() && isParamOf(f, po) {
+		pi := -1
+		for i := 0; f.ParamObj(i) != nil; i++ {
+			if f.ParamObj(i) == po {
+				pi = i
+			}
+		}
+		reassigned := false
+		ast.Inspect(f.Body, func(m ast.Node) bool {
+			if as, isAs := m.(*ast.AssignStmt); isAs && core.AssignsObj(info, as, po) {
+				reassigned = true
+			}
+			if id, isInc := m.(*ast.IncDecStmt); isInc && core.ObjOf(info, id.X) == types.Object(po) {
+				reassigned = true
+			}
+			return !reassigned
+		})
+		callers := p.Callers(f)
+		if pi >= 0 && !reassigned && len(callers) > 0 {
+			all := true
+			for _, cs := range callers {
+				if cs.In == nil || pi >= len(cs.Call.Args) || cs.Dynamic {
+					all = false
+					break
+				}
+				ci := cs.In.Pkg.TypesInfo
+				arg := cs.Call.Args[pi]
+				if _, isC := core.ConstInt(ci, arg); isC {
+					continue
+				}
+				cg := p.Graph(cs.In)
+				if ok, _ := sizeBoundedDepth(p, cs.In, cg, cg.NodeOf(cs.Call.Pos()), arg, depth+1); !ok {
+					all = false
+					break
+				}
+			}
+			if all {
+				return true, "size is a parameter to which every caller passes a constant or a bounded value"
+			}
+		}
+	}
 	// every variable operand has a small unsigned type: the size is bounded by the type
 	small := true
 	nvars := 0
@@ -1364,4 +1427,105 @@ func expandLocals(f *core.Func, e ast.Expr, depth int) string {
 		u.id.Name = u.name
 	}
 	return out
+}
+
+// boundedArith: e is built with + and * (and integer conversions) from operands that are bounded on their own.
+func boundedArith(p *core.Prog, f *core.Func, e ast.Expr, depth int) bool {
+	if depth > 5 {
+		return false
+	}
+	info := f.Pkg.TypesInfo
+	e = core.Unparen(e)
+	if _, isC := core.ConstInt(info, e); isC {
+		return true
+	}
+	if t := info.TypeOf(e); t != nil {
+		if bt, ok := t.Underlying().(*types.Basic); ok && (bt.Kind() == types.Uint8 || bt.Kind() == types.Uint16) {
+			return true
+		}
+	}
+	switch x := e.(type) {
+	case *ast.BinaryExpr:
+		if x.Op == token.ADD || x.Op == token.MUL {
+			return boundedArith(p, f, x.X, depth+1) && boundedArith(p, f, x.Y, depth+1)
+		}
+	case *ast.CallExpr:
+		if tv, ok := info.Types[x.Fun]; ok && tv.IsType() && len(x.Args) == 1 {
+			// widening or same-width integer conversion of a bounded value
+			if bt, ok := tv.Type.Underlying().(*types.Basic); ok && bt.Info()&types.IsInteger != 0 {
+				return boundedArith(p, f, x.Args[0], depth+1)
+			}
+			return false
+		}
+		switch core.BuiltinName(info, x) {
+		case "len", "cap":
+			return true
+		case "min":
+			for _, a := range x.Args {
+				if boundedArith(p, f, a, depth+1) {
+					return true
+				}
+			}
+			return false
+		}
+		// a two-parameter minimum helper of the repository: returns one of its parameters, the first only under a < b
+		if fo := core.Callee(info, x); fo != nil && len(x.Args) == 2 {
+			if h := p.ByObj[fo.Origin()]; h != nil && isMinHelper(p, h) {
+				return boundedArith(p, f, x.Args[0], depth+1) || boundedArith(p, f, x.Args[1], depth+1)
+			}
+		}
+	case *ast.Ident:
+		if v, isVar := info.Uses[x].(*types.Var); isVar && !v.IsField() && !isParamOf(f.Root(), v) {
+			if d := singleDef(f.Root(), v); d != nil {
+				return boundedArith(p, f, d, depth+1)
+			}
+		}
+	}
+	return false
+}
+
+// isMinHelper: h(a, b) returns a on the paths where a < b (or a <= b) is known and b otherwise - never anything else.
+func isMinHelper(p *core.Prog, h *core.Func) bool {
+	a, b := h.ParamObj(0), h.ParamObj(1)
+	if a == nil || b == nil || h.ParamObj(2) != nil || h.Body == nil {
+		return false
+	}
+	info := h.Pkg.TypesInfo
+	g := p.Graph(h)
+	n := 0
+	for _, rn := range g.Returns() {
+		res := returnResults(rn)
+		if len(res) != 1 {
+			return false
+		}
+		o := core.ObjOf(info, res[0])
+		if o != types.Object(a) && o != types.Object(b) {
+			return false
+		}
+		n++
+		// the returned parameter is known not to exceed the other one
+		known := false
+		for _, fc := range g.FactsAt(rn) {
+			be, ok := core.Unparen(fc.Expr).(*ast.BinaryExpr)
+			if !ok || fc.Tag != nil {
+				continue
+			}
+			x, y := core.ObjOf(info, be.X), core.ObjOf(info, be.Y)
+			other := types.Object(b)
+			if o == types.Object(b) {
+				other = a
+			}
+			// o <= other holds
+			switch {
+			case x == o && y == other && ((be.Op == token.LSS || be.Op == token.LEQ) == fc.Truth) && (be.Op == token.LSS || be.Op == token.LEQ || be.Op == token.GTR || be.Op == token.GEQ):
+				known = (be.Op == token.LSS || be.Op == token.LEQ) && fc.Truth || (be.Op == token.GTR || be.Op == token.GEQ) && !fc.Truth
+			case x == other && y == o && (be.Op == token.LSS || be.Op == token.LEQ || be.Op == token.GTR || be.Op == token.GEQ):
+				known = (be.Op == token.GTR || be.Op == token.GEQ) && fc.Truth || (be.Op == token.LSS || be.Op == token.LEQ) && !fc.Truth
+			}
+		}
+		if !known {
+			return false
+		}
+	}
+	return n >= 2
 }
